@@ -191,10 +191,12 @@ fn rust_type(f: &Field) -> String {
         Enc::Struct(k) => k.clone(),
         Enc::Bytes | Enc::Rcpt => unreachable!(),
     };
+    // users may write the container types with or without their path
+    let long = f.name.bytes().last().map(|b| b % 3 == 0).unwrap_or(false);
     match f.card {
         Card::One => base,
-        Card::Opt => format!("Option<{base}>"),
-        Card::Many => format!("Vec<{base}>"),
+        Card::Opt => format!("{}Option<{base}>", if long { "std::option::" } else { "" }),
+        Card::Many => format!("{}Vec<{base}>", if long { "std::vec::" } else { "" }),
     }
 }
 
@@ -239,6 +241,8 @@ fn attribute(f: &Field, rng: &mut Rng) -> String {
     if parts.is_empty() {
         return String::new();
     }
+    // the attribute grammar accepts its keys in any order
+    rng.shuffle(&mut parts);
     format!("#[zvt_bmp({})]", parts.join(", "))
 }
 
